@@ -30,6 +30,7 @@ type replayFile struct {
 	Stack    []string       `json:"stack,omitempty"`
 	Property string         `json:"property"`
 	Observed []uint64       `json:"observed,omitempty"`
+	Sched    []interp.SchedStep `json:"sched,omitempty"`
 }
 
 type known struct {
@@ -91,10 +92,11 @@ type replayer struct {
 	bin    string
 	ovPath string
 	err    error
+	warnings []string
 }
 
 // newReplayer builds one native binary that can run any of the given entries.
-func newReplayer(entries []EntrySpec) *replayer {
+func newReplayer(entries []EntrySpec, focus []string, focusFuncs []string) *replayer {
 	r := &replayer{}
 	dir, err := os.MkdirTemp("", "gosym-replay-")
 	if err != nil {
@@ -103,6 +105,61 @@ func newReplayer(entries []EntrySpec) *replayer {
 	}
 	r.dir = dir
 	ov, _ := buildOverlay()
+	if len(focus) > 0 {
+		inst, warns, err := instrumentFocus(focus, focusFuncs, ov)
+		if err != nil {
+			r.err = err
+			return r
+		}
+		for k, v := range inst {
+			ov[k] = v
+		}
+		r.warnings = warns
+	}
+	// instrumented files of dependency modules (module cache) cannot be
+	// overlaid: copy the module, patch the copy, and build with a -modfile
+	// that replaces the module by the copy
+	var modfileArgs []string
+	modCache := filepath.Join(os.Getenv("HOME"), "go", "pkg", "mod") + string(filepath.Separator)
+	if out, err := exec.Command("go", "env", "GOMODCACHE").Output(); err == nil && strings.TrimSpace(string(out)) != "" {
+		modCache = strings.TrimSpace(string(out)) + string(filepath.Separator)
+	}
+	replaced := map[string]string{} // module dir -> copy
+	for k, v := range ov {
+		if !strings.HasPrefix(k, modCache) {
+			continue
+		}
+		rel := strings.TrimPrefix(k, modCache)
+		at := strings.Index(rel, "@")
+		if at < 0 {
+			continue
+		}
+		slash := strings.Index(rel[at:], string(filepath.Separator))
+		modDir := filepath.Join(modCache, rel[:at+slash])
+		cp, ok := replaced[modDir]
+		if !ok {
+			cp = filepath.Join(dir, fmt.Sprintf("mod%d", len(replaced)))
+			if out, err := exec.Command("cp", "-r", "--no-preserve=mode", modDir, cp).CombinedOutput(); err != nil {
+				r.err = fmt.Errorf("copy %s: %v %s", modDir, err, out)
+				return r
+			}
+			replaced[modDir] = cp
+		}
+		os.WriteFile(filepath.Join(cp, rel[at+slash+1:]), v, 0o644)
+		delete(ov, k)
+	}
+	if len(replaced) > 0 {
+		gm, _ := os.ReadFile(filepath.Join(repoDir, "go.mod"))
+		gs, _ := os.ReadFile(filepath.Join(repoDir, "go.sum"))
+		for modDir, cp := range replaced {
+			base := strings.TrimPrefix(modDir, modCache) // e.g. github.com/sarchlab/akita/v4@v4.9.0
+			at := strings.Index(base, "@")
+			gm = append(gm, []byte(fmt.Sprintf("\nreplace %s => %s\n", base[:at], cp))...)
+		}
+		os.WriteFile(filepath.Join(dir, "go.mod"), gm, 0o644)
+		os.WriteFile(filepath.Join(dir, "go.sum"), gs, 0o644)
+		modfileArgs = []string{"-modfile=" + filepath.Join(dir, "go.mod")}
+	}
 	var sb strings.Builder
 	sb.WriteString("package main\n\nimport (\n\t\"fmt\"\n\t\"os\"\n\tverif \"" + repoMod + "/zzverif\"\n")
 	pk := map[string]string{}
@@ -147,6 +204,21 @@ func main() {
 		}
 		fmt.Println(verif.Report())
 	}()
+	if verif.HasSchedule() {
+		verdict, pan := verif.RunScheduled(f)
+		if pan != nil {
+			panic(pan)
+		}
+		if verdict == "deadlock" {
+			fmt.Println("REPLAY-DEADLOCK every goroutine blocked after the recorded schedule")
+			os.Exit(0)
+		}
+		if verdict != "" {
+			fmt.Println("REPLAY-SCHED-MISMATCH " + verdict)
+			os.Exit(0)
+		}
+		return
+	}
 	f()
 }
 `)
@@ -174,7 +246,9 @@ func main() {
 	r.ovPath = filepath.Join(dir, "overlay.json")
 	os.WriteFile(r.ovPath, b, 0o644)
 	r.bin = filepath.Join(dir, "replay")
-	cmd := exec.Command("go", "build", "-overlay", r.ovPath, "-o", r.bin, "./"+mainRel)
+	args := append([]string{"build"}, modfileArgs...)
+	args = append(args, "-overlay", r.ovPath, "-o", r.bin, "./"+mainRel)
+	cmd := exec.Command("go", args...)
 	cmd.Dir = repoDir
 	cmd.Env = append(os.Environ(), goEnv()...)
 	out, err := cmd.CombinedOutput()
@@ -206,6 +280,9 @@ func (r *replayer) run(rf replayFile) (string, error) {
 		if strings.HasPrefix(l, "REPLAY-") {
 			verdict = l
 		}
+	}
+	if verdict == "" && strings.Contains(s, "all goroutines are asleep - deadlock!") {
+		return "REPLAY-DEADLOCK reported by the Go runtime", nil
 	}
 	if verdict == "" {
 		if err != nil {
@@ -257,7 +334,7 @@ func finish(spec Spec, tier string, entries []EntrySpec, results []*entryResult,
 	}
 	var rp *replayer
 	if len(order) > 0 || nWit > 0 {
-		rp = newReplayer(entries)
+		rp = newReplayer(entries, spec.Focus, spec.FocusFuncs)
 		defer rp.close()
 	}
 	violations := 0
@@ -273,7 +350,7 @@ func finish(spec Spec, tier string, entries []EntrySpec, results []*entryResult,
 	if rp != nil && rp.err == nil {
 		for _, r := range results {
 			for _, w := range r.Witnesses {
-				rf := replayFile{Entry: w.Entry, Vector: w.Vector, Kind: "witness", Params: r.Params, Property: spec.ID, Observed: w.Observed}
+				rf := replayFile{Entry: w.Entry, Vector: w.Vector, Kind: "witness", Params: r.Params, Property: spec.ID, Observed: w.Observed, Sched: w.Sched}
 				v, _ := rp.run(rf)
 				want := fmt.Sprintf("REPLAY-PASS observed=%v", w.Observed)
 				if len(w.Observed) == 0 {
@@ -295,7 +372,7 @@ func finish(spec Spec, tier string, entries []EntrySpec, results []*entryResult,
 			u := uniq[k]
 			f := u.f
 			rf := replayFile{Entry: f.Entry, Vector: f.Vector, Kind: f.Kind, Site: f.Site, Msg: f.Msg, Params: u.params,
-				Names: f.Names, Trace: f.Trace, Stack: f.Stack, Property: spec.ID}
+				Names: f.Names, Trace: f.Trace, Stack: f.Stack, Property: spec.ID, Sched: f.Sched}
 			v, _ := rp.run(rf)
 			confirmed := false
 			switch f.Kind {
@@ -303,9 +380,15 @@ func finish(spec Spec, tier string, entries []EntrySpec, results []*entryResult,
 				confirmed = strings.HasPrefix(v, "REPLAY-FAIL") // the harness's own native Assert failed
 			case "panic":
 				confirmed = strings.HasPrefix(v, "REPLAY-PANIC") || strings.HasPrefix(v, "REPLAY-CRASH")
+			case "deadlock":
+				confirmed = strings.HasPrefix(v, "REPLAY-DEADLOCK")
 			}
 			if !confirmed {
 				mismatches = append(mismatches, fmt.Sprintf("ENCODING-MISMATCH %s %s @%s %q: native replay gave %q", f.Entry, f.Kind, f.Site, f.Msg, v))
+				if d := os.Getenv("GOSYM_KEEP_MISMATCH"); d != "" {
+					b, _ := json.MarshalIndent(rf, "", " ")
+					os.WriteFile(filepath.Join(d, "mismatch-"+sha(b)+".json"), b, 0o644)
+				}
 				continue
 			}
 			matched := false
